@@ -358,7 +358,46 @@ def r_singleton(e, R):
                 want = set(base.params[1:])
                 R.check(fw == want, "R-SINGLETON", f"{init.short}: forwards every base-constructor argument by name", init.short, norm(call)[:60],
                         f"constructor arguments {sorted(want - fw)} are dropped by the reusable executor", e.loc(init, call))
-    R.floor("R-SINGLETON", 25)
+    # ---- polarity of the factory's case analysis (scenario obligations)
+    from . import scenario as SC
+    rz = resize_func(e)
+    ctorn = lambda n: any(isinstance(c.func, ast.Name) and c.func.id == fac.params[0] for c in calls_in(n))
+    shutn = lambda n: any(e.callees_of(c) & {a.shutdown.qualname} for c in calls_in(n))
+    resn = lambda n: any(e.callees_of(c) & {rz.qualname} for c in calls_in(n))
+    recn = lambda n: any(e.callees_of(c) & {fac.qualname} for c in calls_in(n))
+    fl = lambda attr: (lambda x: isinstance(x, ast.Attribute) and x.attr == attr and bool(set(e.pt.ev(fac, x.value)) & a.flags_objs))
+
+    def is_auto(val):
+        def ev(x):
+            if isinstance(x, ast.Compare) and len(x.ops) == 1 and isinstance(x.ops[0], (ast.Eq, ast.NotEq, ast.Is, ast.IsNot)):
+                sides = [x.left, x.comparators[0]]
+                if any(isinstance(s_, ast.Name) and s_.id == "reuse" for s_ in sides) and any(isinstance(s_, ast.Constant) and s_.value == "auto" for s_ in sides):
+                    return val == isinstance(x.ops[0], (ast.Eq, ast.Is))
+            return None
+        return ev
+    autoset = lambda n: n.kind == "stmt" and isinstance(n.ast, ast.Assign) and isinstance(n.ast.targets[0], ast.Name) and n.ast.targets[0].id == "reuse"
+    exl = SC.name(ex_local)
+    SC.must(e, R, "R-SINGLETON", fac, "there is no current executor", [(exl, "none")], ctorn, "builds one", "the first call dereferences None / returns nothing")
+    SC.never(e, R, "R-SINGLETON", fac, "there is no current executor", [(exl, "none")], lambda n: shutn(n) or resn(n), "a shutdown / resize of the (absent) executor",
+             "AttributeError on None in get_reusable_executor")
+    healthy = [(exl, "some"), (fl("broken"), "F"), (fl("shutdown"), "F")]
+    SC.must(e, R, "R-SINGLETON", fac, "the current executor is healthy and reuse is requested", healthy + [(SC.name("reuse"), "T")], resn, "resizes and returns it",
+            "a reusable executor is not reused (or not resized to the requested size)", evaluators=[is_auto(False)])
+    SC.never(e, R, "R-SINGLETON", fac, "the current executor is healthy and reuse is requested", healthy + [(SC.name("reuse"), "T")], lambda n: shutn(n) or ctorn(n) or recn(n),
+             "a shutdown / rebuild", "a healthy executor with unchanged arguments is thrown away on every call", evaluators=[is_auto(False)])
+    for scn, facts in (("the current executor is broken", [(exl, "some"), (fl("broken"), "T")]),
+                       ("the current executor was shut down", [(exl, "some"), (fl("broken"), "F"), (fl("shutdown"), "T")]),
+                       ("reuse is refused", [(exl, "some"), (fl("broken"), "F"), (fl("shutdown"), "F"), (SC.name("reuse"), "F")])):
+        SC.must(e, R, "R-SINGLETON", fac, scn, facts, shutn, "shuts it down", "the unusable executor is handed out / leaks", evaluators=[is_auto(False)])
+        SC.must(e, R, "R-SINGLETON", fac, scn, facts, recn, "builds a new one (recursive call)", "no usable executor is returned", evaluators=[is_auto(False)])
+        SC.never(e, R, "R-SINGLETON", fac, scn, facts, resn, "a resize of the old executor", "a broken / shut-down / differently configured executor is returned",
+                 evaluators=[is_auto(False)])
+    SC.must(e, R, "R-SINGLETON", fac, "a current executor exists and reuse='auto'", [(exl, "some")], autoset, "resolves 'auto' by comparing the arguments",
+            "reuse='auto' (the default) is truthy: the executor is reused although the requested context/timeout/initializer/env/reducers differ",
+            evaluators=[is_auto(True)])
+    SC.never(e, R, "R-SINGLETON", fac, "reuse is given explicitly (True/False)", [(exl, "some")], autoset, "the 'auto' resolution",
+             "an explicit reuse=True/False is overridden by the argument comparison", evaluators=[is_auto(False)])
+    R.floor("R-SINGLETON", 38)
 
 
 # ---------------------------------------------------------------------------
@@ -452,5 +491,59 @@ def r_resize(e, R):
     sp = effect_nodes(e, f, spawn_pred(e))
     R.check(bool(sp) and not any(g.path_exists(s, lambda n: n in posts, use_exc=False) for s in sp), "R-RESIZE", f"{f.short}: tops the pool up after the shrink phase",
             f.short, "_adjust_process_count()", "resize never spawns the missing workers", e.loc(f, f.node))
-    # trivial cases
-    R.floor("R-RESIZE", 8)
+    # ---- polarity of the case analysis at the top of the resize and of the shrink wait (scenario obligations)
+    from . import scenario as SC
+    tgt = f.params[1]
+    selfn = f.params[0]
+
+    def same_size(val):
+        def ev(x):
+            if isinstance(x, ast.Compare) and len(x.ops) == 1 and isinstance(x.ops[0], (ast.Eq, ast.NotEq)):
+                sides = [x.left, x.comparators[0]]
+                if any(isinstance(s_, ast.Name) and s_.id == tgt for s_ in sides) and any(isinstance(s_, ast.Attribute) and s_.attr == "_max_workers" for s_ in sides):
+                    return val == isinstance(x.ops[0], ast.Eq)
+            return None
+        return ev
+    mthread = lambda x: isinstance(x, ast.Attribute) and isinstance(x.value, ast.Name) and x.value.id == selfn and bool(set(e.pt.ev(f, x)) & a.manager_objs)
+    raises = lambda n: n.kind == "stmt" and isinstance(n.ast, ast.Raise)
+    effect = lambda n: n in posts or n in sp or n in mw or n in waitj
+    SC.never(e, R, "R-RESIZE", f, "the requested size equals the current one", [(SC.name(tgt), "some")], effect, "any resizing step",
+             "a no-op request waits for running jobs / restarts workers", evaluators=[same_size(True)])
+    SC.must(e, R, "R-RESIZE", f, "a different size is requested before any worker was started", [(SC.name(tgt), "some"), (mthread, "none")],
+            lambda n: n in mw, "records the new size", "the first submit starts the old number of workers", evaluators=[same_size(False)])
+    SC.never(e, R, "R-RESIZE", f, "a different size is requested before any worker was started", [(SC.name(tgt), "some"), (mthread, "none")],
+             lambda n: n in posts or n in sp, "sentinel posts / spawns", "queues of an executor that was never started are used", evaluators=[same_size(False)])
+    for what, S in (("waits for the running jobs", waitj), ("posts the surplus sentinels (loop)", None), ("records the new size", set(started)), ("tops the pool up", sp)):
+        if S is None:
+            continue
+        SC.must(e, R, "R-RESIZE", f, "a different size is requested on a started executor", [(SC.name(tgt), "some"), (mthread, "some")],
+                lambda n, S=S: n in S, what, "the resize returns without resizing: get_reusable_executor(max_workers=n) hands out an executor of another size",
+                evaluators=[same_size(False)])
+    SC.must(e, R, "R-RESIZE", f, "no size is given", [(SC.name(tgt), "none")], raises, "refuses (raise)", "None is compared with integers further down")
+    # the shrink wait ends exactly when the table is down to the target (or the pool broke)
+    loops = [n for n in func_nodes(f) if isinstance(n, ast.While) and any(isinstance(x, ast.Call) and isinstance(x.func, ast.Name) and x.func.id == "len"
+                                                                        and x.args and e.objs(f, x.args[0]) & a.processes for x in ast.walk(n.test))]
+    if not loops:
+        raise AnalysisError("resize: the shrink wait loop not found")
+
+    def classify(x):
+        if isinstance(x, ast.Call) and isinstance(x.func, ast.Name) and x.func.id == "len" and x.args and e.objs(f, x.args[0]) & a.processes:
+            return "P"
+        if isinstance(x, ast.Name) and x.id == tgt:
+            return "M"
+        if isinstance(x, ast.Attribute) and x.attr == "broken" and set(e.pt.ev(f, x.value)) & a.flags_objs:
+            return "B"
+        return None
+    for lp in loops:
+        try:
+            names, tab, bad = guards.compare(lp.test, {"P": [0, 1, 2, 3, 4], "M": [1, 2, 3], "B": [None, "err"]}, classify,
+                                             lambda env: (env["P"] > env["M"]) and not env["B"])
+        except guards.Inconclusive as ex:
+            raise AnalysisError(str(ex))
+        for env, got, want in bad[:1]:
+            R.fail("R-RESIZE", f.short, norm(lp.test), f"the shrink wait is {got} for workers={env['P']}, target={env['M']}, broken={bool(env['B'])} (must be {want}): "
+                   "it either never ends once the table has reached the target (get_reusable_executor hangs) or ends while surplus workers are still registered",
+                   e.loc(f, lp.test))
+        if not bad:
+            R.ok("R-RESIZE", f"{f.short}: shrink wait == (workers > target and not broken) on {len(tab)} rows", e.loc(f, lp.test))
+    R.floor("R-RESIZE", 14)
